@@ -57,7 +57,8 @@ def snapshot(model):
         if c.formula is None:
             cells[a] = ('const', repr(monitors.norm(c.value)))
         else:
-            cells[a] = ('formula', c.formula.formula)
+            cells[a] = ('formula', c.formula.formula,
+                        getattr(c.formula, 'evaluate', None))
     names = {n: (type(d).__name__, getattr(d, 'address', None)
                  if not isinstance(getattr(d, 'address', None), list)
                  else str(d.address))
@@ -220,6 +221,8 @@ def run(ctx):
             fast = ('bin', '+', fast, gen.R(fk, home))
         m.cells[fail_key] = ('f', ('bin', '+', fast, ('call', 'NOSUCHFUNCTION',
                                                      [gen.lit(1)])))
+        m.cells[(home, 12, 2)] = ('f', ('bin', '+', ('ref', None, 12, 1, False,
+                                                     False), gen.lit(1)))
         # constants that are EQUAL in Python but of different spreadsheet type
         # (1, 1.0, TRUE / 0, 0.0, FALSE), read by type-sensitive formulas
         if rng.random() < 0.5:
@@ -361,11 +364,45 @@ def run(ctx):
         wb2 = m.workbook()
         changed = rng.sample(m.inputs, min(len(m.inputs), rng.randint(1, 3)))
         if rng.random() < 0.6:
-            got_f = subject.outcome_of(
-                lambda: rng.choice(evs).evaluate(build.addr(fail_key)))
-            ctx.event('failing_evaluations_before_reassignment')
-            if got_f[0] != 'raised':
-                ctx.note(f'the failing cell returned {got_f}')
+            # the failing cell and a cell that depends on it, asked several
+            # times in either order by any of the evaluators: a failure is an
+            # outcome like any other - the same whenever it is asked for
+            dep_key = (home, 12, 2)
+            asks = [fail_key, dep_key, fail_key, dep_key, fail_key]
+            if rng.random() < 0.5:
+                asks = [dep_key, fail_key, dep_key, fail_key]
+            seen_f = {}
+            for k in asks:
+                got_f = subject.outcome_of(
+                    lambda: rng.choice(evs).evaluate(build.addr(k)))
+                ctx.event('failing_evaluations_before_reassignment')
+                kind_f = (got_f[0], got_f[1].split(':')[0]
+                          if got_f[0] == 'raised' else got_f[1])
+                first = seen_f.setdefault(k, kind_f)
+                if got_f[0] != 'raised' or kind_f != first:
+                    ctx.fail(f'{build.addr(k)} (a formula calling a function '
+                             f'that does not exist, or reading that cell) '
+                             f'gave {got_f} when asked in the order '
+                             f'{[build.addr(x) for x in asks]}; first outcome '
+                             f'{first}',
+                             {'cells': build.dict_of(wb), 'model': prov,
+                              'asked_in_order': [build.addr(x) for x in asks],
+                              'cell': build.addr(k), 'observed': got_f,
+                              'first_outcome': first},
+                             monitor='schedule-independence',
+                             group='failing-cell')
+                    break
+            after_f = snapshot(model)
+            ctx.event('snapshots')
+            if after_f != after:
+                diff = [a for a in set(after_f[0]) | set(after[0])
+                        if after_f[0].get(a) != after[0].get(a)]
+                ctx.fail(f'a failing evaluation changed the model: cells '
+                         f'{diff[:5]}, formulae {after_f[2] != after[2]}',
+                         {'cells': build.dict_of(wb), 'changed': diff[:10],
+                          'before': {a: after[0].get(a) for a in diff[:10]},
+                          'after': {a: after_f[0].get(a) for a in diff[:10]}},
+                         monitor='model-unchanged', group='snapshot-failing')
         try:
             for k in changed:
                 v = rng.choice([11, 12, 13, 0.25, -3])
